@@ -93,7 +93,7 @@ inline bool run_grid(System &S, GridStats &st, std::string *honest_out = 0) {
 			st.mutants++;
 			if (r == 0) st.rejected++; else if (r == 2) st.thrown++;
 			else if (tol(v, m.val)) st.tolerated_acc++;
-			else { st.fails++; propfail(S.name + "." + lab(i) + "." + m.name, "verifier accepted the transcript with token #" + std::to_string(i) + " (" + lab(i) + ") changed from " + hx(v) + " to " + hx(m.val) + " [hex]; p=" + hx(S.p) + " q=" + hx(S.q)); }
+			else { st.fails++; propfail(S.name + "." + lab(i) + "." + ((m.name == "minus2q" || m.name == "minus3q" || m.name == "minusq2k") ? std::string("negfar") : m.name), "verifier accepted the transcript with token #" + std::to_string(i) + " (" + lab(i) + ") changed from " + hx(v) + " to " + hx(m.val) + " [hex]; p=" + hx(S.p) + " q=" + hx(S.q)); }
 		}
 		// swap with the next token
 		if (i + 1 < at.size()) {
